@@ -79,7 +79,7 @@ Section Inv.
     (forall a, In a (oc_addrs oc) -> ok_ap peers a) /\
     (length (oc_r4 oc) <= cap)%nat /\ (length (oc_r6 oc) <= cap)%nat /\ (length (oc_relay oc) <= cap)%nat.
 
-  Record inv_rec (r : lrec) : Prop := mkInv {
+  Record inv_core (r : lrec) : Prop := mkInv {
     i_vpn_ne : rl_vpn (snd r) <> [];
     i_vpn_in : incl (rl_vpn (snd r)) (fst r);
     i_cache : forall e, In e (rl_cache (snd r)) -> ok_oc (fst r) (snd e);
@@ -93,7 +93,7 @@ Section Inv.
   Lemma ok_oc_mono p q oc : ok_oc p oc -> incl p q -> ok_oc q oc.
   Proof. intros [H1 H2] I. split; [|exact H2]. intros a Ha. eapply usable_mono; [now apply H1|assumption]. Qed.
 
-  Lemma inv_mono p q L : inv_rec (p, L) -> incl p q -> inv_rec (q, L).
+  Lemma inv_mono_core p q L : inv_core (p, L) -> incl p q -> inv_core (q, L).
   Proof.
     intros [A B C D E F] I. cbn [fst snd] in *. constructor; cbn [fst snd]; try assumption.
     - intros x Hx. apply I, B, Hx.
@@ -101,7 +101,7 @@ Section Inv.
     - intros a Ha. eapply usable_mono; [now apply E|assumption].
   Qed.
 
-  Lemma inv_new all : all <> [] -> inv_rec (all, rl_new all).
+  Lemma inv_new_core all : all <> [] -> inv_core (all, rl_new all).
   Proof.
     intros H. constructor; cbn; try assumption; try (intros ? []); try apply incl_refl.
     right. intros a [].
@@ -119,7 +119,7 @@ Section Inv.
   Qed.
 
   (* what the collected list holds *)
-  Lemma sources_ok r : inv_rec r -> forall a, In a (sources adm (snd r)) -> ok_ap (fst r) a /\ ~ In a (rl_bad (snd r)).
+  Lemma sources_ok_core r : inv_core r -> forall a, In a (sources adm (snd r)) -> ok_ap (fst r) a /\ ~ In a (rl_bad (snd r)).
   Proof.
     intros [A B C D E F] a Ha. unfold sources in Ha. apply collect_addrs_in in Ha. destruct Ha as [[(e & He & Hx)|[Hd Hadm]] Hb].
     - split; [|assumption]. now apply (proj1 (C e He)).
@@ -127,9 +127,9 @@ Section Inv.
       eapply usable_mono; [apply adm_usable; [exact A|exact Hadm]|exact B].
   Qed.
 
-  Lemma inv_rebuild p L pref : inv_rec (p, L) -> inv_rec (p, rebuild adm pref L).
+  Lemma inv_rebuild_core p L pref : inv_core (p, L) -> inv_core (p, rebuild adm pref L).
   Proof.
-    intros I. pose proof (sources_ok _ I) as S. destruct I as [A B C D E F]. cbn [fst snd] in *.
+    intros I. pose proof (sources_ok_core _ I) as S. destruct I as [A B C D E F]. cbn [fst snd] in *.
     constructor; cbn [fst snd rebuild rl_vpn rl_cache rl_dns rl_addrs rl_bad rl_dirty]; try assumption.
     - intros a Ha. apply sort_addrs_in in Ha. destruct (rl_dirty L); [now apply S|now apply E].
     - right. intros a Ha. apply sort_addrs_in in Ha. destruct (rl_dirty L) eqn:Dd; [now apply S|].
@@ -160,68 +160,68 @@ Section Inv.
     In a (opt_list (oc_l4 oc)) \/ In a (oc_r4 oc) \/ In a (opt_list (oc_l6 oc)) \/ In a (oc_r6 oc).
   Proof. unfold oc_addrs. rewrite !in_app_iff. tauto. Qed.
 
-  Lemma inv_rstep p L o : inv_rec (p, L) -> rop_ok p o -> inv_rec (p, rstep adm chk L o).
+  Lemma inv_rstep_core p L o : inv_core (p, L) -> rop_ok p o -> inv_core (p, rstep adm chk L o).
   Proof.
     intros I Hok. destruct o; cbn [rop_ok] in Hok; try contradiction; cbn [rstep].
     - (* RLearn *)
       destruct Hok as [Hp Hu]. destruct (is4 a) eqn:E4.
       + assert (Hf : forall oc, ok_oc p oc -> ok_oc p (mkOC (Some a) (oc_r4 oc) (oc_l6 oc) (oc_r6 oc) (oc_relay oc))).
-        { intros oc [H1 H2]. split; [|exact H2]. intros x Hx. apply in_oc_addrs in Hx. cbn in Hx.
+        { intros oc [H1 H2]. split; [|exact H2]. intros x Hx. apply in_oc_addrs in Hx. cbn [oc_l4 oc_r4 oc_l6 oc_r6 opt_list In] in Hx.
           destruct Hx as [[<-|[]]|Hx]; [unfold ok_ap, eff; now rewrite Hp|].
           apply H1, in_oc_addrs. tauto. }
         inv_cache I Hf.
       + assert (Hf : forall oc, ok_oc p oc -> ok_oc p (mkOC (oc_l4 oc) (oc_r4 oc) (Some (unmap_addr (ap_addr a), ap_port a)) (oc_r6 oc) (oc_relay oc))).
-        { intros oc [H1 H2]. split; [|exact H2]. intros x Hx. apply in_oc_addrs in Hx. cbn in Hx.
+        { intros oc [H1 H2]. split; [|exact H2]. intros x Hx. apply in_oc_addrs in Hx. cbn [oc_l4 oc_r4 oc_l6 oc_r6 opt_list In] in Hx.
           destruct Hx as [Hx|[Hx|[[<-|[]]|Hx]]]; try (apply H1, in_oc_addrs; tauto).
           unfold ok_ap, eff, ap_addr. cbn [fst]. rewrite unmap_idem. fold (ap_addr a). now rewrite Hp. }
         inv_cache I Hf.
     - (* RSet4 *)
       assert (Hf : forall oc, ok_oc p oc -> ok_oc p (mkOC (oc_l4 oc) (set_reported (chk vpn) (map of_v4 to)) (oc_l6 oc) (oc_r6 oc) (oc_relay oc))).
       { intros oc (H1 & H2 & H3 & H4). split.
-        - intros x Hx. apply in_oc_addrs in Hx. cbn in Hx.
+        - intros x Hx. apply in_oc_addrs in Hx. cbn [oc_l4 oc_r4 oc_l6 oc_r6 opt_list In] in Hx.
           destruct Hx as [Hx|[Hx|Hx]]; try (apply H1, in_oc_addrs; tauto).
           unfold set_reported in Hx. apply filter_In in Hx. destruct Hx as [Hin Hc].
           apply firstn_In, in_map_iff in Hin. destruct Hin as (e & <- & _).
           unfold ok_ap, eff. rewrite (of_v4_plain e).
-          eapply usable_mono; [now apply chk_usable|]. intros y [<-|[]]. exact Hok.
-        - cbn. repeat split; try assumption. unfold set_reported.
-          eapply Nat.le_trans; [apply filter_length_le|apply firstn_le_cap]. }
+          eapply usable_mono; [apply (chk_usable vpn); exact Hc|]. intros y [<-|[]]. exact Hok.
+        - cbn [oc_r4 oc_r6 oc_relay]. repeat split; try assumption. unfold set_reported.
+          pose proof (filter_length_le (chk vpn) (firstn cap (map of_v4 to))); pose proof (firstn_le_cap (map of_v4 to)); lia. }
       inv_cache I Hf.
     - (* RSet6 *)
       assert (Hf : forall oc, ok_oc p oc -> ok_oc p (mkOC (oc_l4 oc) (oc_r4 oc) (oc_l6 oc) (set_reported (chk vpn) (map of_v6 to)) (oc_relay oc))).
       { intros oc (H1 & H2 & H3 & H4). split.
-        - intros x Hx. apply in_oc_addrs in Hx. cbn in Hx.
+        - intros x Hx. apply in_oc_addrs in Hx. cbn [oc_l4 oc_r4 oc_l6 oc_r6 opt_list In] in Hx.
           destruct Hx as [Hx|[Hx|[Hx|Hx]]]; try (apply H1, in_oc_addrs; tauto).
           unfold set_reported in Hx. apply filter_In in Hx. destruct Hx as [Hin Hc].
           apply firstn_In, in_map_iff in Hin. destruct Hin as (e & <- & _).
           unfold ok_ap, eff. rewrite (of_v6_plain e).
-          eapply usable_mono; [now apply chk_usable|]. intros y [<-|[]]. exact Hok.
-        - cbn. repeat split; try assumption. unfold set_reported.
-          eapply Nat.le_trans; [apply filter_length_le|apply firstn_le_cap]. }
+          eapply usable_mono; [apply (chk_usable vpn); exact Hc|]. intros y [<-|[]]. exact Hok.
+        - cbn [oc_r4 oc_r6 oc_relay]. repeat split; try assumption. unfold set_reported.
+          pose proof (filter_length_le (chk vpn) (firstn cap (map of_v6 to))); pose proof (firstn_le_cap (map of_v6 to)); lia. }
       inv_cache I Hf.
     - (* RPre4 *)
       assert (Hf : forall oc, ok_oc p oc -> ok_oc p (mkOC (oc_l4 oc) (prepend_reported (of_v4 e) (oc_r4 oc)) (oc_l6 oc) (oc_r6 oc) (oc_relay oc))).
       { intros oc (H1 & H2 & H3 & H4). split.
-        - intros x Hx. apply in_oc_addrs in Hx. cbn in Hx.
+        - intros x Hx. apply in_oc_addrs in Hx. cbn [oc_l4 oc_r4 oc_l6 oc_r6 opt_list In] in Hx.
           destruct Hx as [Hx|[Hx|Hx]]; try (apply H1, in_oc_addrs; tauto).
           unfold prepend_reported in Hx. apply firstn_In in Hx. destruct Hx as [<-|Hx]; [exact Hok|].
           apply H1, in_oc_addrs. tauto.
-        - cbn. repeat split; try assumption. apply firstn_le_cap. }
+        - cbn [oc_r4 oc_r6 oc_relay]. repeat split; try assumption. apply firstn_le_cap. }
       inv_cache I Hf.
     - (* RPre6 *)
       destruct Hok as [Hp Hu].
       assert (Hf : forall oc, ok_oc p oc -> ok_oc p (mkOC (oc_l4 oc) (oc_r4 oc) (oc_l6 oc) (prepend_reported (of_v6 e) (oc_r6 oc)) (oc_relay oc))).
       { intros oc (H1 & H2 & H3 & H4). split.
-        - intros x Hx. apply in_oc_addrs in Hx. cbn in Hx.
+        - intros x Hx. apply in_oc_addrs in Hx. cbn [oc_l4 oc_r4 oc_l6 oc_r6 opt_list In] in Hx.
           destruct Hx as [Hx|[Hx|[Hx|Hx]]]; try (apply H1, in_oc_addrs; tauto).
           unfold prepend_reported in Hx. apply firstn_In in Hx. destruct Hx as [<-|Hx].
           + unfold ok_ap, eff. now rewrite Hp.
           + apply H1, in_oc_addrs. tauto.
-        - cbn. repeat split; try assumption. apply firstn_le_cap. }
+        - cbn [oc_r4 oc_r6 oc_relay]. repeat split; try assumption. apply firstn_le_cap. }
       inv_cache I Hf.
     - (* RRelay *)
       assert (Hf : forall oc, ok_oc p oc -> ok_oc p (mkOC (oc_l4 oc) (oc_r4 oc) (oc_l6 oc) (oc_r6 oc) (set_relay to))).
-      { intros oc (H1 & H2 & H3 & H4). split; [exact H1|]. cbn. repeat split; try assumption. apply firstn_le_cap. }
+      { intros oc (H1 & H2 & H3 & H4). split; [exact H1|]. cbn [oc_r4 oc_r6 oc_relay]. repeat split; try assumption. apply firstn_le_cap. }
       inv_cache I Hf.
     - (* RBlock *)
       destruct (is_bad (rl_bad L) a); [exact I|].
@@ -233,21 +233,41 @@ Section Inv.
     - (* RDns *)
       destruct I as [A B C D E F]. cbn [fst snd] in *.
       constructor; cbn [fst snd rl_vpn rl_cache rl_dns rl_addrs rl_bad rl_dirty]; try assumption. left; reflexivity.
-    - (* RRebuild *) now apply inv_rebuild.
+    - (* RRebuild *) now apply inv_rebuild_core.
   Qed.
 
-  Lemma inv_rrun ops : forall p L, inv_rec (p, L) -> Forall (rop_ok p) ops -> inv_rec (p, rrun adm chk L ops).
+  Lemma inv_rrun_core ops : forall p L, inv_core (p, L) -> Forall (rop_ok p) ops -> inv_core (p, rrun adm chk L ops).
   Proof.
     induction ops as [|o r IH]; intros p L I H; cbn [rrun fold_left]; [exact I|].
-    inversion H as [|? ? Ho Hr]; subst. apply (IH p (rstep adm chk L o)); [now apply inv_rstep|assumption].
+    inversion H as [|? ? Ho Hr]; subst. apply (IH p (rstep adm chk L o)); [now apply inv_rstep_core|assumption].
   Qed.
 
   (* ---- consequences for one list ---- *)
-  Lemma copy_ok r pref : inv_rec r ->
+  Lemma copy_ok_core r pref : inv_core r ->
     forall a, In a (copy_addrs adm pref (snd r)) -> ok_ap (fst r) a /\ ~ In a (rl_bad (snd r)).
   Proof.
-    intros I a Ha. destruct r as [p L]. pose proof (inv_rebuild p L pref I) as I'.
+    intros I a Ha. destruct r as [p L]. pose proof (inv_rebuild_core p L pref I) as I'.
     unfold copy_addrs in Ha. destruct I' as [A B C D E F]. cbn [fst snd] in *. split; [now apply E|].
     destruct F as [F|F]; [cbn in F; discriminate|]. apply F in Ha. exact Ha.
   Qed.
+
+  (* the invariant: the admission facts above, and the cached list is dirty or current (C37) *)
+  Definition inv_rec (r : lrec) : Prop := inv_core r /\ fresh adm (snd r).
+
+  Lemma inv_mono p q L : inv_rec (p, L) -> incl p q -> inv_rec (q, L).
+  Proof. intros [I F] H. split; [now apply (inv_mono_core p q L)|exact F]. Qed.
+
+  Lemma inv_new all : all <> [] -> inv_rec (all, rl_new all).
+  Proof. intros H. split; [now apply inv_new_core|cbn [snd]; apply (fresh_new adm chk)]. Qed.
+
+  Lemma inv_rstep p L o : inv_rec (p, L) -> rop_ok p o -> inv_rec (p, rstep adm chk L o).
+  Proof. intros [I F] H. cbn [snd] in *. split; [now apply inv_rstep_core|cbn [snd]; now apply rstep_fresh]. Qed.
+
+  Lemma inv_rrun ops : forall p L, inv_rec (p, L) -> Forall (rop_ok p) ops -> inv_rec (p, rrun adm chk L ops).
+  Proof. intros p L [I F] H. cbn [snd] in *. split; [now apply inv_rrun_core|cbn [snd]; now apply rrun_fresh]. Qed.
+
+  Lemma copy_ok r pref : inv_rec r ->
+    (forall a, In a (copy_addrs adm pref (snd r)) -> ok_ap (fst r) a /\ ~ In a (rl_bad (snd r))) /\
+    copy_addrs adm pref (snd r) = sort_addrs pref (sources adm (snd r)).
+  Proof. intros [I F]. split; [now apply copy_ok_core|]. now apply copy_fresh. Qed.
 End Inv.
